@@ -106,6 +106,163 @@ def enclosing_stmt(node, func):
 
 # ---- loops ---------------------------------------------------------------------
 
+
+INT_TYPES_ = ("int", "long", "long long", "unsigned int", "unsigned long", "unsigned long long", "size_t", "std::size_t",
+              "std::vector::size_type")
+
+
+def _enclosing_function(n):
+    """The function declaration whose body contains statement / declaration n (the enclosing function of a lambda body,
+    not the closure's operator())."""
+    x = n.get("_p")
+    while x is not None:
+        k = x.get("kind", "")
+        if k in ("CXXMethodDecl", "FunctionDecl", "CXXConstructorDecl", "CXXDestructorDecl"):
+            gp = (x.get("_p") or {}).get("_p") or {}
+            if gp.get("kind") != "LambdaExpr":
+                return x
+        x = x.get("_p")
+    return None
+
+
+SIZE_STABLE_MEMBERS = ("size", "empty", "begin", "end", "cbegin", "cend", "rbegin", "rend", "operator[]", "at", "front", "back", "data",
+                       "capacity", "reserve")
+
+
+def _size_stable_after(fn, d, obj):
+    """obj is a local container (DeclRefExpr); no reference to it that follows declaration d (or shares a loop with it) can
+    change its size: only element access, iteration, size queries, or binding to a const parameter."""
+    o = strip(obj, casts=True)
+    if o.get("kind") != "DeclRefExpr":
+        return False
+    vid = (o.get("referencedDecl") or {}).get("id")
+    loop = d.get("_p")
+    while loop is not None and loop.get("kind") not in ("ForStmt", "WhileStmt", "DoStmt", "CXXForRangeStmt"):
+        if loop is fn:
+            loop = None
+            break
+        loop = loop.get("_p")
+    scope = loop if loop is not None else fn
+    seen_decl = loop is not None
+    for x in walk(scope):
+        if x is d:
+            seen_decl = True
+            continue
+        if not seen_decl or x.get("kind") != "DeclRefExpr" or (x.get("referencedDecl") or {}).get("id") != vid:
+            continue
+        p = x.get("_p") or {}
+        while p.get("kind") == "ParenExpr":
+            p = p.get("_p") or {}
+        k = p.get("kind")
+        if k == "ImplicitCastExpr" and (qt(p).startswith("const ") or p.get("castKind") == "LValueToRValue"):
+            continue
+        if k == "MemberExpr" and p.get("name") in SIZE_STABLE_MEMBERS:
+            continue
+        if k == "CXXOperatorCallExpr" and callee_info(p)["name"] == "operator[]" and callee_info(p)["obj"] is not None and \
+                strip(callee_info(p)["obj"], casts=True) is x:
+            continue
+        if k in ("VarDecl", "DeclStmt"):      # range-for `__range` binding / reference binding
+            if str(p.get("name", "")).startswith("__range") or qt(p).startswith("const "):
+                continue
+        return False
+    return True
+
+
+CURRENT_CTX = [None]
+
+
+def _unaffected_by(fn_decl, call):
+    """The enclosing function (transitively) writes none of the members the called const getter (transitively) reads: the value
+    read once stays the value of the call."""
+    ctx = CURRENT_CTX[0]
+    if ctx is None:
+        return False
+    body = [c for c in inner(fn_decl) if isinstance(c, dict) and c.get("kind") == "CompoundStmt"]
+    f = body[-1].get("_func") if body else None
+    _ci, fs = ctx.eff.resolve_callee(call)
+    if f is None or len(fs) != 1:
+        return False
+    tr = ctx.eff.transitive()
+    reads = set(tr.get(fs[0].key, {}).get("reads", ())) | set(ctx.eff.summary(fs[0])["reads"])
+    writes = set(tr.get(f.key, {}).get("writes", ()))
+    return bool(reads) and not (reads & writes)
+
+
+def hoisted_count(d):
+    """`const int n = nbCells();` / `size_t n = v.size();` - a count read once into a local. Returns the canonical form of the
+    initialiser when the local is a faithful alias of it for the rest of the function: integer type, initialised by an
+    argument-less call of a const member function on an object the function cannot modify (this of a const method, a
+    const parameter / local, or a member of those), and never written afterwards (const, or every reference to it is a read)."""
+    if d is None or d.get("kind") != "VarDecl" or d.get("_rangevar") is not None:
+        return None
+    memo = d.get("_hoisted")
+    if memo is not None:
+        return memo or None
+    d["_hoisted"] = False
+    t = ((d.get("type") or {}).get("desugaredQualType") or qt(d))
+    is_const = t.startswith("const ")
+    if t.replace("const ", "").strip() not in INT_TYPES_:
+        return None
+    init = children(d)
+    if not init:
+        return None
+    e = strip(init[-1], casts=True)
+    if e.get("kind") != "CXXMemberCallExpr":
+        return None
+    ci = callee_info(e)
+    if ci is None or ci["args"]:
+        return None
+    cd = ci.get("decl") or {}
+    ft = qt(cd) if cd else ""
+    if ci["name"] not in ("size",) and not (ft and "const" in ft[ft.rfind(")"):]):
+        return None
+    fn = _enclosing_function(d)
+    if fn is None:
+        return None
+    fnt = qt(fn)
+    fn_const = "const" in fnt[fnt.rfind(")"):]
+
+    def immutable(o):
+        if o is None:
+            return fn_const
+        o = strip(o, casts=True)
+        k = o.get("kind")
+        if k == "CXXThisExpr":
+            return fn_const
+        if k == "MemberExpr":
+            ch = children(o)
+            return immutable(ch[0]) if ch else fn_const
+        if k == "DeclRefExpr":
+            rd = o.get("referencedDecl") or {}
+            ty = (rd.get("type") or {}).get("qualType", "")
+            return ty.startswith("const ")
+        return False
+    if not immutable(ci["obj"]) and not (ci["name"] == "size" and _size_stable_after(fn, d, ci["obj"])) and \
+            not _unaffected_by(fn, e):
+        return None
+    if not is_const:
+        for x in walk(fn):
+            if x.get("kind") == "DeclRefExpr" and (x.get("referencedDecl") or {}).get("id") == d.get("id"):
+                p = x.get("_p") or {}
+                while p.get("kind") == "ParenExpr":
+                    p = p.get("_p") or {}
+                if not (p.get("kind") == "ImplicitCastExpr" and p.get("castKind") == "LValueToRValue"):
+                    return None
+    c = canon(e)
+    d["_hoisted"] = c
+    return c
+
+
+def subst_counts(c, unit):
+    """Replace hoisted count locals (see hoisted_count) by the call they alias."""
+    if not isinstance(c, tuple):
+        return c
+    if c and c[0] == "var":
+        h = hoisted_count(unit.by_id.get(c[1]))
+        return h if h is not None else c
+    return tuple(subst_counts(x, unit) if isinstance(x, tuple) else x for x in c)
+
+
 def for_loop_info(s):
     """Describe `for (T v = lo; v < hi; ++v)` style loops. Returns dict or None."""
     ch = list(inner(s))
@@ -126,6 +283,8 @@ def for_loop_info(s):
         return None
     v = ("var", var.get("id"), var.get("name"))
     cc = canon(cond)
+    if s.get("_u") is not None:
+        cc = subst_counts(cc, s["_u"])
     hi = None
     if cc[0] == "bin" and cc[1] in ("<", "<=", "!=", ">", ">="):
         l, r = cc[2], cc[3]
@@ -137,6 +296,8 @@ def for_loop_info(s):
             hi = ("bin", "-", r, l[3])
         elif r == v and cc[1] == ">":
             hi = l
+    if hi is None and cc[0] == "op" and cc[1] in ("operator!=", "operator<") and len(cc) == 4 and cc[2] == v:
+        hi = cc[3]                                         # iterator loops: it != c.end()
     ic = canon(inc)
     step = None
     if ic[0] == "un" and ic[1] == "++" and ic[2] == v:
@@ -145,6 +306,8 @@ def for_loop_info(s):
         step = -1
     elif ic[0] == "bin" and ic[1] == "+=" and ic[2] == v and ic[3] == ("lit", "1"):
         step = 1
+    elif ic[0] in ("call", "op") and ic[1] in ("operator++", "operator--") and v in ic[2:]:
+        step = 1 if ic[1] == "operator++" else -1        # iterator loops
     return {"var": v, "decl": var, "lo": lo, "hi": hi, "cond": cc, "step": step, "body": body, "inc": inc, "stmt": s}
 
 
@@ -607,10 +770,33 @@ def check_accumulators(ctx, rep, rid, funcs, control=False):
             ti = (desugared(init) or qt(init) or "").replace("const ", "").strip()
             it = (desugared(ci["args"][0]) or qt(ci["args"][0]) or "")
             m = _re.search(r"__normal_iterator<(?:const )?([\w ]+?) ?\*", it) or _re.search(r"^(?:const )?([\w ]+?) ?\*", it)
-            if not m:
+            te = m.group(1).strip() if m else None
+            # a custom folding operation (lambda): what is folded into the accumulator is what the lambda returns, before the
+            # conversion to its declared return type
+            op = strip(ci["args"][3], casts=True) if ci["name"] in ("accumulate", "reduce") and len(ci["args"]) > 3 else None
+            while op is not None and op.get("kind") in ("CXXConstructExpr", "MaterializeTemporaryExpr", "CXXBindTemporaryExpr") and children(op):
+                op = strip(children(op)[0], casts=True)
+            if op is not None and op.get("kind") == "DeclRefExpr":
+                # a lambda stored in a local first
+                from ..expr import ref_decl as _rd
+                vd = _rd(op) or {}
+                vi = children(vd) if vd.get("kind") == "VarDecl" and "inner" in vd else []
+                op = strip(vi[-1], casts=True) if vi else op
+                while op.get("kind") in ("CXXConstructExpr", "MaterializeTemporaryExpr", "CXXBindTemporaryExpr", "ExprWithCleanups") and children(op):
+                    op = strip(children(op)[0], casts=True)
+            if op is not None and op.get("kind") == "LambdaExpr":
+                body = [c for c in inner(op) if isinstance(c, dict) and c.get("kind") == "CompoundStmt"]
+                rts = []
+                for r_ in (walk(body[-1]) if body else []):
+                    if r_.get("kind") == "ReturnStmt" and children(r_):
+                        e_ = strip(children(r_)[0])
+                        rts.append((desugared(e_) or qt(e_) or "").replace("const ", "").strip())
+                known = [t for t in rts if t in _WIDTH]
+                if known and len(known) == len(rts):
+                    te = max(known, key=lambda t: (_WIDTH[t], t in ("float", "double")))
+            if te is None:
                 rep.unknown(rid, x, f, "%s over %s" % (ci["name"], it[:60]), "element type of the range not recognised")
                 continue
-            te = m.group(1).strip()
             n += 1
             wi, we = _WIDTH.get(ti), _WIDTH.get(te)
             what = "%s over %s elements with a %s accumulator" % (ci["name"], te, ti)
@@ -737,27 +923,509 @@ def is_dead_under(node, func, env):
     return False
 
 
-def inline_getters(ctx, c, _depth=0):
+def inline_getters(ctx, c, _depth=0, with_params=False):
     """Replace calls to trivial const member functions (`T f() const { return <expr over members>; }`, no parameters) by their
-    body, with `this` replaced by the object expression: `b.length()` becomes `b.maxPos - b.minPos`."""
+    body, with `this` replaced by the object expression: `b.length()` becomes `b.maxPos - b.minPos`. With with_params=True
+    single-return functions taking parameters (thin wrappers) are inlined too, parameters replaced by the arguments."""
     if not isinstance(c, tuple) or _depth > 6:
         return c
-    c = tuple(inline_getters(ctx, x, _depth + 1) if isinstance(x, tuple) else x for x in c)
-    if c and c[0] == "call" and len(c) == 3 and isinstance(c[1], str) and "::" in c[1]:
-        fs = [f for f in ctx.prog.funcs_by_q.get(c[1], []) if not f.params and f.body is not None]
+    c = tuple(inline_getters(ctx, x, _depth + 1, with_params) if isinstance(x, tuple) else x for x in c)
+    if c and c[0] == "call" and len(c) >= 3 and isinstance(c[1], str) and "::" in c[1] and (len(c) == 3 or with_params):
+        fs = [f for f in ctx.prog.funcs_by_q.get(c[1], []) if len(f.params) == len(c) - 3 and f.body is not None]
         if len(fs) == 1:
             stmts = [x for x in inner(fs[0].body) if isinstance(x, dict) and x.get("kind")]
             if len(stmts) == 1 and stmts[0].get("kind") == "ReturnStmt" and children(stmts[0]):
                 body = canon(children(stmts[0])[0])
                 if not any(t[0] in ("call",) and t[1] == c[1] for t in subterms(body)):
+                    pmap = {p.get("id"): c[3 + i] for i, p in enumerate(fs[0].params)}
+
                     def sub(t):
                         if t == ("this",):
-                            return c[2]
+                            return c[2] if c[2] not in (None, ("none",)) else t
                         if isinstance(t, tuple):
+                            if t and t[0] == "var" and t[1] in pmap:
+                                return pmap[t[1]]
                             return tuple(sub(x) if isinstance(x, tuple) else x for x in t)
                         return t
-                    return inline_getters(ctx, sub(body), _depth + 1)
+                    return inline_getters(ctx, sub(body), _depth + 1, with_params)
     return c
+
+
+
+ELEMENT_ALGOS = {"transform": 0, "for_each": 0, "any_of": 0, "all_of": 0, "none_of": 0, "find_if": 0, "find_if_not": 0, "count_if": 0,
+                 "copy_if": 0, "remove_if": 0, "partition": 0, "stable_partition": 0, "accumulate": 1}
+
+
+def algo_element_container(param_decl):
+    """If param_decl is the element parameter of a lambda handed directly to a standard algorithm over `X.begin(), X.end()`
+    (std::transform, for_each, any_of, find_if, ... ; the second parameter for std::accumulate), return the AST node of X."""
+    fn = param_decl.get("_p")                      # operator() of the closure, or the LambdaExpr's copy
+    lam = fn
+    while lam is not None and lam.get("kind") != "LambdaExpr":
+        lam = lam.get("_p")
+    if lam is None:
+        return None
+    params = [c for c in inner(fn) if isinstance(c, dict) and c.get("kind") == "ParmVarDecl"] if fn is not None else []
+    if param_decl not in params:
+        ids = [c.get("id") for c in params]
+        if param_decl.get("id") not in ids:
+            return None
+        pos = ids.index(param_decl.get("id"))
+    else:
+        pos = params.index(param_decl)
+    call = lam.get("_p")
+    while call is not None and call.get("kind") in ("MaterializeTemporaryExpr", "CXXBindTemporaryExpr", "ImplicitCastExpr", "CXXConstructExpr",
+                                                    "ExprWithCleanups", "ParenExpr"):
+        call = call.get("_p")
+    if call is None or call.get("kind") != "CallExpr":
+        return None
+    ci = callee_info(call)
+    if not ci or ci["is_member"] or ci["name"] not in ELEMENT_ALGOS or ELEMENT_ALGOS[ci["name"]] != pos or len(ci["args"]) < 3:
+        return None
+    b, e = canon(ci["args"][0]), canon(ci["args"][1])
+    if b[0] == "call" and b[1] in ("begin", "cbegin") and e[0] == "call" and e[1] in ("end", "cend") and len(b) == 3 and b[2] == e[2]:
+        bo = strip(ci["args"][0], casts=True)
+        while bo.get("kind") in ("CXXConstructExpr", "MaterializeTemporaryExpr", "CXXBindTemporaryExpr") and children(bo):
+            bo = strip(children(bo)[0], casts=True)
+        bci = callee_info(bo) if bo.get("kind") in CALL_KINDS else None
+        return bci["obj"] if bci else None
+    return None
+
+
+def local_lambda_calls(func):
+    """{lambda Func key: [list of argument-canon lists]} for lambdas stored in a local variable and invoked by name."""
+    out = {}
+    for x in walk(func.body):
+        if x.get("kind") == "CXXOperatorCallExpr":
+            ci = callee_info(x)
+            if ci and ci["name"] == "operator()" and ci["obj"] is not None:
+                oc = canon(ci["obj"])
+                if oc[0] == "var":
+                    d = func.unit.by_id.get(oc[1])
+                    init = children(d) if d is not None and d.get("kind") == "VarDecl" else []
+                    lam = strip(init[-1], casts=True) if init else None
+                    while lam is not None and lam.get("kind") in ("CXXConstructExpr", "MaterializeTemporaryExpr", "CXXBindTemporaryExpr", "ExprWithCleanups") and children(lam):
+                        lam = strip(children(lam)[0], casts=True)
+                    if lam is not None and lam.get("kind") == "LambdaExpr" and lam.get("_lam") is not None:
+                        out.setdefault(id(lam), (lam, []))[1].append([canon(a) for a in ci["args"]])
+    return out
+
+
+
+# ---- eagerly maintained derived members -----------------------------------------------------------------
+
+def check_eager_derived(ctx, rep, rid, class_pred=None):
+    """DE. A data member M is *derived* when every value it ever receives is computed from other members of the same object:
+    `M = g()` with g an argument-less const method of the class (inputs: the members g reads), or a constructor initialiser
+    `M(f(p, q))` over constructor parameters that are also copied verbatim into members (`u(p)`: input u). Such a member is a
+    memoised result. Every other function that writes one of its inputs must re-derive M on every path afterwards, otherwise a
+    function that reads both sees a stale M. Returns the number of derived members examined."""
+    prog, eff = ctx.prog, ctx.eff
+    trans = eff.transitive()
+    n = 0
+    for cq, rec in prog.records.items():
+        if class_pred is not None and not class_pred(cq):
+            continue
+        ctors = [f for f in prog.funcs.values() if f.cls == cq and f.kind == "CXXConstructorDecl" and f.body is not None]
+        methods = [f for f in prog.funcs.values() if f.cls == cq and f.kind == "CXXMethodDecl" and f.body is not None]
+        if not methods:
+            continue
+        for name, fd in rec["fields"].items():
+            mq = cq + "::" + name
+            if fd.get("mutable"):
+                continue
+            inputs, derivs, pure = set(), [], True
+            # constructor initialisers
+            for c in ctors:
+                copies = {}     # param id -> member q copied verbatim from it
+                minit = None
+                for ci_ in c.ctor_inits:
+                    an = ci_.get("anyInit") or {}
+                    ch = children(ci_)
+                    if not an.get("name") or not ch:
+                        continue
+                    v = canon(ch[-1])
+                    if v[0] == "call" and v[1] == "move" and len(v) >= 4:
+                        v = v[3]
+                    if an.get("name") == name:
+                        minit = (ci_, v)
+                    elif v[0] == "var":
+                        copies[v[1]] = cq + "::" + an.get("name")
+                if minit is None:
+                    continue
+                ci_, v = minit
+                if v[0] in ("lit", "enum", "var") or (v[0] == "construct" and len(v) <= 2):
+                    if v[0] == "var":
+                        pure = False        # a stored argument, not a derived value
+                    continue
+                used = {t[1] for t in subterms(v) if isinstance(t, tuple) and t and t[0] == "var"}
+                ins = {copies[i] for i in used if i in copies}
+                if ins and used <= set(copies):
+                    inputs |= ins
+                    derivs.append((c, ci_))
+                else:
+                    pure = False
+            # assignments in bodies
+            for f, x, u in field_writes(ctx, mq):
+                if f.cls != cq:
+                    pure = False
+                    continue
+                asg = u.node
+                rhs = None
+                q_ = asg
+                while q_ is not None and q_.get("kind") != "CXXCtorInitializer" and q_ is not f.body:
+                    q_ = q_.get("_p")
+                if q_ is not None and q_.get("kind") == "CXXCtorInitializer":
+                    continue                # member initialisers were judged above
+                if asg.get("kind") == "BinaryOperator" and asg.get("opcode") == "=" and canon(children(asg)[0]) == ("field", mq, ("this",)):
+                    rhs = canon(children(asg)[1])
+                elif asg.get("kind") == "CXXOperatorCallExpr" and callee_info(asg)["name"] == "operator=" and len(children(asg)) >= 3 and \
+                        canon(children(asg)[1]) == ("field", mq, ("this",)):
+                    rhs = canon(children(asg)[2])
+                if rhs is not None and rhs[0] == "call" and len(rhs) == 3 and rhs[2] == ("this",) and isinstance(rhs[1], str):
+                    gs = [g for g in prog.funcs_by_q.get(rhs[1], []) if g.cls == cq and g.is_const and not g.params]
+                    if len(gs) == 1:
+                        ins = {r for r in (set(trans.get(gs[0].key, {}).get("reads", ())) | set(eff.summary(gs[0])["reads"])) if r.startswith(cq + "::")}
+                        ins.discard(mq)
+                        if ins:
+                            inputs |= ins
+                            derivs.append((f, asg))
+                            continue
+                if rhs is not None and rhs[0] in ("lit", "enum"):
+                    continue                # a reset to a constant is neither a derivation nor a stored value
+                pure = False
+            # a member that is itself an object of a library class is too coarse an input (the derivation reads some of its
+            # state, a writer may change another part): only scalar / container members of this class count
+            def _is_subobject(q):
+                fdq = rec["fields"].get(q.split("::")[-1])
+                t = (qt(fdq) if fdq is not None else "").replace("const ", "").strip().rstrip("&*").strip()
+                return any(t == r or t == r.split("::")[-1] or r.endswith("::" + t) for r in prog.records)
+            inputs = {i for i in inputs if not _is_subobject(i)}
+            if not pure or not inputs or not derivs:
+                continue
+            # someone must look at M together with one of its inputs, otherwise staleness is not observable
+            readers = [h for h in methods if mq in (set(trans.get(h.key, {}).get("reads", ())) | set(eff.summary(h)["reads"]))
+                       and (inputs & (set(trans.get(h.key, {}).get("reads", ())) | set(eff.summary(h)["reads"])))
+                       and not any(h is d[0] for d in derivs)]
+            if not readers:
+                continue
+            n += 1
+            what = "member %s is derived from %s" % (short(mq), sorted(short(i) for i in inputs))
+            stale = None
+            for g in prog.funcs.values():
+                if g.body is None or g.kind in ("CXXConstructorDecl", "CXXDestructorDecl") and g.cls == cq:
+                    continue
+                sg = eff.summary(g)
+                touched = (set(sg["writes"]) | set(sg["escapes"])) & inputs
+                if not touched:
+                    continue
+                cg = cfg_of(g)
+                dn = [cg.node_for(a) for f_, a in derivs if f_ is g]
+                # calls of functions that re-derive M on every path
+                for y in walk(g.body):
+                    if y.get("kind") in ("CXXMemberCallExpr", "CallExpr"):
+                        _c, hs = eff.resolve_callee(y)
+                        for h in hs:
+                            hd = [a for f_, a in derivs if f_ is h]
+                            if hd:
+                                hg = cfg_of(h)
+                                hn = [hg.node_for(a) for a in hd]
+                                if hg.exit.idx not in hg.reachable_from([hg.entry], avoid=[z for z in hn if z is not None]):
+                                    dn.append(cg.node_for(y))
+                dn = [z for z in dn if z is not None]
+                for q in touched:
+                    for x, u in sg["writes"].get(q, []) + sg["escapes"].get(q, []):
+                        wn = cg.node_for(u.node) or cg.node_for(x)
+                        if wn is None:
+                            continue
+                        if cg.exit.idx in cg.reachable_from([wn], avoid=dn) and wn not in dn:
+                            stale = stale or (g, u.node, q)
+            if stale:
+                g, node, q = stale
+                rep.violation(rid, node, g, what, "%s writes %s and can return without re-deriving %s, which %s reads together with it: the stored "
+                              "value goes stale" % (g.short, short(q), name, readers[0].short),
+                              key="%s|stale derived member %s" % (g.short, name))
+            else:
+                rep.holds(rid, derivs[0][1], derivs[0][0], what, "every writer of its inputs re-derives it on every path")
+    return n
+
+
+
+
+def shrinking_bound_loops(f):
+    """for (i = 0; i < X.size(); ++i) { X.pop() / pop_back() / erase(...) }: the bound shrinks while the index grows, so only about
+    half of the elements are removed. Returns [(loop node, canonical X)]."""
+    out = []
+    if f.body is None:
+        return out
+    for x in walk(f.body):
+        li = for_loop_info(x) if x.get("kind") == "ForStmt" else None
+        if not li or li["hi"] is None or li["step"] != 1:
+            continue
+        hi = li["hi"]
+        if not (hi[0] == "call" and hi[1] == "size" and len(hi) == 3):
+            continue
+        cont = hi[2]
+        for y in walk(li["body"]):
+            if y.get("kind") == "CXXMemberCallExpr":
+                ci = callee_info(y)
+                if ci and ci["name"] in ("pop", "pop_back", "pop_front", "erase") and ci["obj"] is not None and canon(ci["obj"]) == cont:
+                    out.append((x, cont))
+                    break
+    return out
+
+
+
+# ---- paired parameters of one family ---------------------------------------------------------------------
+
+def check_family_pairing(ctx, rep, rid, funcs, cls_q, pair=("Size", "Overlap")):
+    """FP. The parameter struct cls_q holds pairs `<family><A>` / `<family><B>` (lineReoptSize / lineReoptOverlap, diagReopt...,
+    squareReopt...): the check validates `overlap < size` per family and the window strides `size - overlap` rely on it. Wherever
+    an <A> member and a <B> member meet - as the two operands of an operator, or as arguments of one call (local variables
+    replaced by their initialisers) - they must belong to the same family. Returns the number of meeting points examined."""
+    rec = ctx.prog.records.get(cls_q)
+    if not rec:
+        return 0
+    names = set()
+    for name in rec["fields"]:
+        for i, suf in enumerate(pair):
+            if name.endswith(suf) and len(name) > len(suf) and (name[:-len(suf)] + pair[1 - i]) in rec["fields"]:
+                names.add(name)
+    fam = {}
+    # the same members exist in the internal parameter structs the user-facing one is copied into
+    for rq, r2 in ctx.prog.records.items():
+        for name in r2["fields"]:
+            if name in names:
+                for i, suf in enumerate(pair):
+                    if name.endswith(suf):
+                        fam[rq + "::" + name] = (name[:-len(suf)], i)
+    if len({v[0] for v in fam.values()}) < 2:
+        return 0
+
+    def tags(c):
+        out = set()
+        for t in subterms(c):
+            if isinstance(t, tuple) and t and t[0] == "field" and t[1] in fam:
+                out.add(fam[t[1]])
+        return out
+    n = 0
+    for f in funcs:
+        if f.body is None:
+            continue
+        owner = f.outer if hasattr(f, "outer") and f.outer is not None else f
+        for x in walk(f.body):
+            k = x.get("kind")
+            parts = None
+            if k == "BinaryOperator" and x.get("opcode") in ("-", "<", "<=", ">", ">=", "==", "!=", "+", "/", "%", "*"):
+                parts = children(x)
+            elif k in ("CallExpr", "CXXMemberCallExpr", "CXXOperatorCallExpr", "CXXConstructExpr", "CXXTemporaryObjectExpr"):
+                ci = callee_info(x)
+                parts = ci["args"] if ci else None
+            if not parts or len(parts) < 2:
+                continue
+            ts = [tags(expand_locals(ctx, owner, canon(p_))) for p_ in parts]
+            a_f = {t[0] for tt in ts for t in tt if t[1] == 0}
+            b_f = {t[0] for tt in ts for t in tt if t[1] == 1}
+            # the two kinds must come from different operands / arguments to count as a meeting point
+            if not a_f or not b_f or not any((any(t[1] == 0 for t in ts[i]) and any(t[1] == 1 for t in ts[j])) for i in range(len(ts)) for j in range(len(ts)) if i != j):
+                continue
+            n += 1
+            what = "%s: %s" % (f.short, pretty(canon(x))[:70])
+            if a_f == b_f and len(a_f) == 1:
+                rep.holds(rid, x, f, what, "%s%s with %s%s" % (next(iter(a_f)), pair[0], next(iter(b_f)), pair[1]))
+            else:
+                rep.violation(rid, x, f, what, "%s of the %s family meets %s of the %s family: the bound that is validated (and the stride "
+                              "that is computed) belongs to another window than the one it is used for" % (
+                                  pair[0], sorted(a_f), pair[1], sorted(b_f)), key="%s|mixed parameter families" % f.short)
+    return n
+
+
+
+# ---- coordinates offset in floating point ----------------------------------------------------------------------
+
+def float_offset_coordinates(prog, funcs, coord_pred):
+    """`coordinate +/- floating value` (the coordinate an integer member selected by coord_pred: Rectangle / Row bounds) whose
+    floating result becomes an integer bound again: through an implicit float -> int conversion, or as an argument of emplace_back /
+    a constructor of a rectangle-like class (the conversion then happens inside the forwarding template). Returns
+    [(node, func, canonical expression)]. The sum is formed in binary32/64: it is exact only below 2^24 and the conversion truncates
+    towards zero, i.e. differently on the two sides of a row and of the origin."""
+    out = []
+    for f in funcs:
+        if f.body is None:
+            continue
+        for src in walk(f.body):
+            if src.get("kind") != "BinaryOperator" or src.get("opcode") not in ("+", "-"):
+                continue
+            t = ((src.get("type") or {}).get("qualType") or "").replace("const ", "")
+            if t not in ("float", "double", "long double"):
+                continue
+            hit = False
+            for o in children(src):
+                oc = canon(o)
+                if oc[0] == "field" and coord_pred(oc):
+                    ot = ((strip(o, casts=True).get("type") or {}).get("qualType") or "").replace("const ", "")
+                    if ot in ("int", "long", "long long"):
+                        hit = True
+            if not hit:
+                continue
+            p = src.get("_p")
+            while p is not None and p.get("kind") in ("ParenExpr", "MaterializeTemporaryExpr", "ExprWithCleanups"):
+                p = p.get("_p")
+            if p is None:
+                continue
+            k = p.get("kind")
+            sink = False
+            if k == "ImplicitCastExpr" and p.get("castKind") == "FloatingToIntegral":
+                sink = True
+            elif k in ("CXXMemberCallExpr",) and callee_info(p)["name"] in ("emplace_back", "emplace") and callee_info(p)["obj"] is not None and \
+                    any(w in qt(callee_info(p)["obj"]) for w in ("Rectangle", "Row")):
+                sink = True
+            elif k in ("CXXConstructExpr", "CXXTemporaryObjectExpr") and any(w in qt(p) for w in ("Rectangle", "Row")):
+                sink = True
+            if sink:
+                out.append((src, f, canon(src)))
+    return out
+
+
+
+# ---- extremal element chosen by one key, another member used ---------------------------------------------------
+
+def extremal_key_mismatches(f):
+    """`std::max_element(b, e, [](a, b) { return a.K1 < b.K1; })->K2` (or min_element) with K2 != K1: the K2 of the element that is
+    extremal for K1, which is not the extremal K2. Returns [(node, K1, K2)] for uses where the result is dereferenced to a member /
+    accessor different from the comparator's key."""
+    out = []
+    if f.body is None:
+        return out
+    for x in walk(f.body):
+        if x.get("kind") != "CallExpr":
+            continue
+        ci = callee_info(x)
+        if not ci or ci["name"] not in ("max_element", "min_element") or len(ci["args"]) != 3:
+            continue
+        lam = strip(ci["args"][2], casts=True)
+        while lam.get("kind") in ("CXXConstructExpr", "MaterializeTemporaryExpr", "CXXBindTemporaryExpr") and children(lam):
+            lam = strip(children(lam)[0], casts=True)
+        lf = lam.get("_lam") if lam.get("kind") == "LambdaExpr" else None
+        rets = [r for r in walk(lf.body) if r.get("kind") == "ReturnStmt" and children(r)] if lf is not None and lf.body is not None else []
+        if lf is None or len(rets) != 1 or len(lf.params) != 2:
+            continue
+        rc = canon(children(rets[0])[0])
+        if not (rc[0] == "bin" and rc[1] in ("<", ">", "<=", ">=")):
+            continue
+
+        def key(c):
+            if c[0] == "field" and c[2][0] == "var":
+                return ("field", c[1].split("::")[-1])
+            if c[0] == "call" and len(c) == 3 and isinstance(c[2], tuple) and c[2][0] == "var":
+                return ("call", str(c[1]).split("::")[-1])
+            return None
+        k1, k2 = key(rc[2]), key(rc[3])
+        if k1 is None or k1 != k2:
+            continue
+        # uses of the iterator: directly `->member` on the call, or through a local initialised with it
+        uses = []
+        p = x.get("_p")
+        while p is not None and p.get("kind") in ("ImplicitCastExpr", "ParenExpr", "MaterializeTemporaryExpr", "ExprWithCleanups", "CXXConstructExpr", "CXXBindTemporaryExpr"):
+            p = p.get("_p")
+        roots = []
+        if p is not None and p.get("kind") == "VarDecl":
+            vid = p.get("id")
+            roots = [y for y in walk(f.body) if y.get("kind") == "DeclRefExpr" and (y.get("referencedDecl") or {}).get("id") == vid]
+        else:
+            roots = [x]
+        for r_ in roots:
+            q = r_.get("_p")
+            while q is not None and q.get("kind") in ("ImplicitCastExpr", "ParenExpr", "MaterializeTemporaryExpr", "CXXOperatorCallExpr", "UnaryOperator"):
+                q = q.get("_p")
+            if q is not None and q.get("kind") == "MemberExpr":
+                used = ("call" if (q.get("_p") or {}).get("kind") == "CXXMemberCallExpr" else "field", q.get("name"))
+                if used != k1:
+                    out.append((q, k1[1], used[1]))
+    return out
+
+
+# ---- running minimum / maximum sentinels ----------------------------------------------------------------
+
+def _running_extrema(f):
+    """{var id: ('min'|'max', [canonical expressions folded in], decl)} for locals updated as v = std::min/max(v, e) (either
+    argument order) anywhere in f."""
+    out = {}
+    for x in walk(f.body):
+        if x.get("kind") == "BinaryOperator" and x.get("opcode") == "=":
+            l, r = canon(children(x)[0]), canon(children(x)[1])
+            if l[0] == "var" and r[0] == "call" and r[1] in ("min", "max") and len(r) == 5 and l in r[3:]:
+                e = r[4] if r[3] == l else r[3]
+                d = f.unit.by_id.get(l[1])
+                if d is not None and d.get("kind") == "VarDecl":
+                    ent = out.setdefault(l[1], [r[1], [], d, l])
+                    if ent[0] != r[1]:
+                        ent[0] = "mixed"
+                    ent[1].append(e)
+    return out
+
+
+def check_sentinels(ctx, rep, rid, funcs):
+    """SN. (a) A running *maximum* must start below every value: std::numeric_limits<float / double>::min() is the smallest
+    *positive* value, so a maximum started there never goes below zero (lowest() is the most negative one). (b) A running minimum
+    and a running maximum folded over the *same* expression coincide for a single element: `min < max` as a test for "something
+    was seen" drops exactly that case (the test is `min <= max`). Returns the number of accumulators examined."""
+    n = 0
+    for f in funcs:
+        if f.body is None:
+            continue
+        ext = _running_extrema(f)
+        if not ext:
+            continue
+        for vid, (kind_, exprs, d, v) in ext.items():
+            n += 1
+            init = children(d)
+            ic = strip(init[-1], casts=True) if init else None
+            what = "%s: running %s %s" % (f.short, "maximum" if kind_ == "max" else "minimum", v[2])
+            bad = False
+            if ic is not None and ic.get("kind") == "CallExpr":
+                ci = callee_info(ic)
+                t = ((ic.get("type") or {}).get("desugaredQualType") or qt(ic)).replace("const ", "")
+                if ci and not ci["args"] and kind_ == "max" and ci["name"] == "min" and t in ("float", "double", "long double"):
+                    rep.violation(rid, d, f, what, "starts at std::numeric_limits<%s>::min(), the smallest positive value: the maximum of negative "
+                                  "values comes out as ~0 (lowest() is the most negative value)" % t, key="%s|maximum started at the smallest positive float" % f.short)
+                    bad = True
+                elif ci and not ci["args"] and ((kind_ == "max" and ci["name"] == "max") or (kind_ == "min" and ci["name"] in ("min", "lowest"))):
+                    rep.violation(rid, d, f, what, "starts at the wrong end of the range (numeric_limits::%s())" % ci["name"],
+                                  key="%s|accumulator started at the wrong end" % f.short)
+                    bad = True
+            if not bad:
+                rep.holds(rid, d, f, what, "initial value on the neutral side")
+        # (b) strict comparison between a minimum and a maximum of the same expression
+        mins = {vid: e for vid, e in ext.items() if e[0] == "min"}
+        maxs = {vid: e for vid, e in ext.items() if e[0] == "max"}
+        for x in walk(f.body):
+            if x.get("kind") != "BinaryOperator" or x.get("opcode") not in ("<", ">", "<=", ">="):
+                continue
+            a, b = canon(children(x)[0]), canon(children(x)[1])
+            op = x.get("opcode")
+            if a[0] != "var" or b[0] != "var":
+                continue
+            if a[1] in maxs and b[1] in mins:
+                a, b, op = b, a, {"<": ">", ">": "<", "<=": ">=", ">=": "<="}[op]
+            if not (a[1] in mins and b[1] in maxs):
+                continue
+            same = any(e1 == e2 for e1 in mins[a[1]][1] for e2 in maxs[b[1]][1])
+            if not same:
+                continue
+            p = x.get("_p")
+            while p is not None and p.get("kind") in ("ParenExpr", "ImplicitCastExpr"):
+                p = p.get("_p")
+            if p is None or p.get("kind") not in ("IfStmt", "ConditionalOperator", "WhileStmt", "BinaryOperator", "UnaryOperator", "ForStmt"):
+                continue
+            n += 1
+            what = "%s: test %s between the running minimum and maximum of one expression" % (f.short, pretty(canon(x)))
+            if op in ("<", ">="):
+                rep.violation(rid, x, f, what, "a single element gives minimum == maximum: `%s %s %s` treats that case like the empty one "
+                              "(non-empty is minimum <= maximum)" % (a[2], op, b[2]), key="%s|strict emptiness test on an extent" % f.short)
+            else:
+                rep.holds(rid, x, f, what, "separates exactly the empty case (minimum > maximum)")
+    return n
 
 
 # ---- index obtained on a sorted copy used on the unsorted original ------------------------------------
